@@ -6,6 +6,7 @@ from typing import Dict, List, Optional, Set, Tuple
 
 from ..core import AnalysisError, RuleSpec
 from ..pymodel import call_name
+from .. import astq
 
 EXPLANATION = (
     "AST rules over ford/graphs.py. R1: in every *Node constructor each insertion into a forward "
@@ -254,15 +255,18 @@ def r3_edges(ctx, rep):
 def r4_optout(ctx, rep):
     py = ctx.py
     fn = py.func("GraphManager.register")
-    ifs = [n for n in fn.body if isinstance(n, ast.If)]
-    ok = len(ifs) == 1 and "meta.graph" in ast.unparse(ifs[0].test) and not [
-        s for s in fn.body if not isinstance(s, (ast.If, ast.Expr))]
+    ev = astq.trace(fn)
+    regs = [e for e in ev if e.kind == "call" and (call_name(e.node).endswith("data.register") or call_name(e.node) == "self.graph_objs.append")]
+    if len(regs) < 2:
+        raise AnalysisError("GraphManager.register: data.register / graph_objs.append calls not found")
+    ok = all(any(c.endswith("meta.graph") and not c.startswith("not") for c in e.cond_texts()) for e in regs)
     rep.ob("GraphManager.register honours meta.graph", ok,
            "registration (data.register + graph_objs.append) happens only under obj.meta.graph" if ok else
            "register() adds objects regardless of their `graph` metadata", py.nloc(fn))
     ga = py.func("GraphManager.graph_all")
-    outer = [n for n in ga.body if isinstance(n, ast.For)]
-    ok = bool(outer) and "self.graph_objs" in ast.unparse(outer[0].iter)
+    outer = [n for n in ast.walk(ga) if isinstance(n, ast.For) and any(
+        "self.graph_objs" in ast.unparse(x) for x in astq.expand_locals(n.iter, ga))]
+    ok = bool(outer)
     rep.ob("graph_all iterates registered objects", ok,
            "per-entity graphs are created in a loop over self.graph_objs" if ok else
            "graph_all no longer iterates graph_objs", py.nloc(ga))
